@@ -189,6 +189,28 @@ func checkC20(c *Ctx) {
 		}
 		return out
 	}
+	// layout() itself lays out whenever it is asked to: the only things that may stop it are a
+	// missing view and the orientation switch.  (Mutators such as InsertWidget call it without
+	// raising `changed`; a shortcut keyed on remembered state would skip their relayout.)
+	if lay := bl["layout"]; lay != nil {
+		bad := ""
+		n := 0
+		for _, call := range callsIn(lay, func(nm string, _ *ssa.CallCommon) bool {
+			return strings.HasSuffix(nm, "BoxLayout).hLayout") || strings.HasSuffix(nm, "BoxLayout).vLayout")
+		}) {
+			n++
+			for _, a := range guardsAt(call.Block()) {
+				as := a.String()
+				if strings.Contains(as, ".view") || strings.Contains(as, ".orient") {
+					continue
+				}
+				bad += "the call at " + p.pos(call.Pos()) + " depends on " + as + "; "
+			}
+		}
+		c.Check(n == 2 && bad == "", "C20-R3", "layout:unconditional", p.pos(lay.Pos()), "hLayout/vLayout run whenever layout() is called with a view "+bad)
+	} else {
+		c.Undecided("C20-R3", "layout", "-", "not found")
+	}
 	for _, name := range sortedKeys(bl) {
 		fn := bl[name]
 		if name == "layout" || name == "hLayout" || name == "vLayout" {
